@@ -18,8 +18,9 @@ import (
 // with a delay injected at the syscall that opens the window (no source hook needed):
 //
 //	window D  DeleteBucket, between the emptiness check (getdents64 of the bucket directory) and the removal
-//	window U  the upload, between its bucket check and the publication of the object (unlinkat of the
-//	          stale path in link(), i.e. before the parent directories are made and the file is linked)
+//	window U  the upload, anywhere between its bucket check and the publication of the object: every path
+//	          syscall of the uploading process (stat, open, mkdir, link, rename, unlink) is delayed, so the
+//	          DeleteBucket sent at the different offsets lands between each pair of its steps
 //
 // The other request is sent at several offsets into the window. Oracle (model-independent): the two
 // answers of one round are never both successes — unless the bucket and the object are both still there
@@ -32,9 +33,9 @@ func c16Race(a lib.Args, res *lib.Result) error {
 	}
 	vs := []variant{
 		{"delete-window:putObject", "D", []string{"-f", "-qq", "-o", "/dev/null", "-e", "trace=getdents64", "-e", "inject=getdents64:delay_exit=250000"}, "putObject"},
-		{"upload-window:putObject", "U", []string{"-f", "-qq", "-o", "/dev/null", "-e", "trace=unlinkat", "-e", "inject=unlinkat:delay_enter=600000"}, "putObject"},
+		{"upload-window:putObject", "U", []string{"-f", "-qq", "-o", "/dev/null", "-e", "trace=newfstatat,openat,mkdirat,linkat,renameat2,unlinkat", "-e", "inject=newfstatat,openat,mkdirat,linkat,renameat2,unlinkat:delay_enter=120000"}, "putObject"},
 		{"delete-window:completeUpload", "D", []string{"-f", "-qq", "-o", "/dev/null", "-e", "trace=getdents64", "-e", "inject=getdents64:delay_exit=250000"}, "completeUpload"},
-		{"upload-window:completeUpload", "U", []string{"-f", "-qq", "-o", "/dev/null", "-e", "trace=unlinkat", "-e", "inject=unlinkat:delay_enter=600000"}, "completeUpload"},
+		{"upload-window:completeUpload", "U", []string{"-f", "-qq", "-o", "/dev/null", "-e", "trace=newfstatat,openat,mkdirat,linkat,renameat2,unlinkat", "-e", "inject=newfstatat,openat,mkdirat,linkat,renameat2,unlinkat:delay_enter=120000"}, "completeUpload"},
 	}
 	// the outcome pairs the model (Model.BucketRace, the code as it is now) reaches over all schedules
 	mo, err := a.Driver.Ask([]string{"race outcomes"})
